@@ -64,10 +64,7 @@ class RegWorld:
     config = self.config
     config._set_config_is_locked(False)
     config._INTERACTIVE_MODE = False
-    for sel in [k for k, _ in list(config._REGISTRY.items()) if k not in self._before]:
-      config._REGISTRY.pop(sel)
-    for k in [k for k in list(config._INVERSE_REGISTRY) if k not in self._inv_before]:
-      del config._INVERSE_REGISTRY[k]
+    core.restore_registry(config, self._before, self._inv_before)
     config._RENAMED_SELECTORS.clear()
     sys.modules.pop(self.mod.__name__, None)
 
@@ -414,10 +411,7 @@ def unknown_parameter_case(shape, api):
         gin.clear_config()
   finally:
     gin.clear_config()
-    for s2 in [k for k, _ in list(config._REGISTRY.items()) if k not in before]:
-      config._REGISTRY.pop(s2)
-    for k in [k for k in list(config._INVERSE_REGISTRY) if k not in inv_before]:
-      del config._INVERSE_REGISTRY[k]
+    core.restore_registry(config, before, inv_before)
   return bad
 PICKLE_MODULE = 'gvreg_pickle_shapes'
 
@@ -556,8 +550,5 @@ def transparency_case(shape, api, scoped, predict):
       fails.append(('wrapperIsSubclass', '%r' % (wrapper,)))
   finally:
     gin.clear_config()
-    for s in [k for k, _ in list(config._REGISTRY.items()) if k not in before]:
-      config._REGISTRY.pop(s)
-    for k in [k for k in list(config._INVERSE_REGISTRY) if k not in inv_before]:
-      del config._INVERSE_REGISTRY[k]
+    core.restore_registry(config, before, inv_before)
   return fails
